@@ -232,7 +232,8 @@ def monitor(op, code, before, after, live):
     a = op["action"]
     an = a if a in ACTIONS else ("missing" if a is None else "unknown")
     running = bool(live.get(op["dag"]))
-    if code >= 400 and before != after:
+    noview = lambda d: {k: v for k, v in d.items() if k != "view"}
+    if code >= 400 and noview(before) != noview(after):
         diff = [k for k in ("argv", "stops", "extra") if before[k] != after[k]] + [n for n in POOL if before["dags"][n] != after["dags"][n]]
         out.append(("C20:refused-action-changed-world:" + an, "code %d but %s changed" % (code, diff)))
     if a == "start" and running and code < 400:
@@ -297,7 +298,96 @@ def monitor(op, code, before, after, live):
     return out
 
 
+def view_monitor(dmp, live):
+    """what the long-lived client answers for every recorded run = what the files hold (C06's look-up clause seen
+       through the API's client and its read cache); the one sanctioned difference: a run recorded as running whose
+       process is gone may be shown as failed"""
+    out = []
+    for name, v in (dmp.get("view") or {}).items():
+        hist = [h for h in (dmp["dags"][name]["hist"] or []) if h["req"]]
+        def same(h, r):
+            if r.get("err") or r["req"] != h["req"]:
+                return False
+            if [n["status"] for n in (h["nodes"] or [])] != (r["nodes"] or []):
+                return False
+            return r["status"] == h["status"] or (h["status"] == 1 and r["status"] == 2 and live.get(name) != h["req"])
+        seen = set()
+        for h, r in zip(hist, v.get("byreq") or []):
+            if h["req"] in seen:
+                continue
+            seen.add(h["req"])
+            if not same(h, r):
+                out.append(("api-view:lookup-by-request-id-differs-from-the-recorded-status",
+                            "DAG %s run %s: recorded status %s nodes %s, the client answers %s" % (
+                                name, h["req"], h["status"], [n["status"] for n in (h["nodes"] or [])], r)))
+                break
+        rec = v.get("recent") or []
+        byreq = {}
+        for h in hist:
+            byreq.setdefault(h["req"], h)
+        for r in rec:
+            h = byreq.get(r["req"])
+            if h is None or not same(h, r):
+                out.append(("api-view:recent-history-differs-from-the-recorded-status",
+                            "DAG %s run %s: recorded %s, recent history shows %s" % (name, r["req"], h and (h["status"], [n["status"] for n in (h["nodes"] or [])]), r)))
+                break
+    return out
+
+
+def frozen_agent_stream(chk, binh, only=None, view_only=False):
+    """an edit that passes the handler's guards and is refused INSIDE client.UpdateStatus (the agent's socket accepts and
+       never answers: a frozen agent): refused = nothing changes, neither on file nor in what the API's long-lived client
+       answers afterwards; the next accepted edit of another step changes exactly that step. Judged by the monitors
+       only (the Lean model has no frozen agent)."""
+    rng = chk.rng
+    if only is not None:
+        cases = [only]
+    else:
+        cases = []
+        for k in range(1 if chk.tier == "quick" else 4):
+            nodes = [{"name": "s1", "status": rng.choice([4, 2])}, {"name": "s2", "status": rng.choice([4, 2, 3])}, {"name": "s3", "status": 4}][:rng.randint(2, 3)]
+            # both edits really change their step
+            a1 = "mark-failed" if nodes[0]["status"] == 4 else "mark-success"
+            a2 = "mark-failed" if nodes[1]["status"] == 4 else ("mark-success" if nodes[1]["status"] == 2 else rng.choice(["mark-success", "mark-failed"]))
+            via = rng.choice(["http", "direct"])
+            cases.append({"id": "frozen%d" % k, "pool": POOL, "frozen": True,
+                          "dags": [{"name": "d0", "spec": SPECS[0][0], "specIdx": 0, "susp": False, "live": "",
+                                    "runs": [{"ago": 30, "req": "r1", "status": rng.choice([4, 2]), "params": "", "nodes": nodes}]},
+                                   {"name": "d1", "spec": SPECS[0][0], "specIdx": 0, "susp": False, "live": "", "runs": []}],
+                          "ops": [{"op": "live", "dag": "d0", "req": "!hung"},
+                                  {"op": "post", "dag": "d0", "action": a1, "value": "", "requestId": "r1", "step": "s1", "params": "", "via": via},
+                                  {"op": "live", "dag": "d0", "req": ""},
+                                  {"op": "post", "dag": "d1", "action": "bogus", "value": "", "requestId": "", "step": "", "params": "", "via": "direct"},
+                                  {"op": "post", "dag": "d0", "action": a2, "value": "", "requestId": "r1", "step": "s2", "params": "", "via": via}]})
+    p = subprocess.run([binh], input="\n".join(json.dumps(c) for c in cases) + "\n", stdout=subprocess.PIPE,
+                       stderr=subprocess.PIPE, text=True, timeout=600)
+    if p.returncode != 0:
+        chk.oblige("harness-run:api-frozen", False, p.stderr[-2000:]); return
+    n = 0
+    for c, line in zip(cases, p.stdout.strip().split("\n")):
+        r = json.loads(line)
+        if r.get("err"):
+            chk.oblige("harness-case:%s" % c["id"], False, r["err"]); continue
+        live = {d["name"]: d["live"] for d in c["dags"]}
+        snaps = [r["init"]] + [s_["dump"] for s_ in r["steps"]]
+        for k, op in enumerate(c["ops"]):
+            before, after, st = snaps[k], snaps[k + 1], r["steps"][k]
+            if op["op"] == "live":
+                live[op["dag"]] = "" if op["req"] == "!hung" else op["req"]
+                continue
+            n += 1; chk.evaluations += 1
+            chk.nontrivial.add(("frozen", op["action"], st["code"] // 100))
+            for sig, what in ([] if view_only else monitor(op, st["code"], before, after, live)):
+                chk.violation(sig + ":frozen-agent", "%s on %s: %s" % (op["action"], op["dag"], what), dict(c, ops=c["ops"][:k + 1]))
+            for sig, what in view_monitor(after, live):
+                chk.violation(chk.prop + ":" + sig + ":after-an-edit-refused-by-a-frozen-agent", what, dict(c, ops=c["ops"][:k + 1]))
+    chk.stats = dict(chk.stats or {}, frozen_agent_actions=n)
+
+
 def run(chk, replay):
+    if replay and json.load(open(replay)).get("case", {}).get("frozen"):
+        binh, out = common.build_harness("api")
+        frozen_agent_stream(chk, binh, only=json.load(open(replay))["case"]); return
     if replay and "agent_case" in json.load(open(replay)).get("case", {}):
         import p_c08
         p_c08.liveness_stream(chk, "C20", 0, only=json.load(open(replay))["case"]["agent_case"]); return
@@ -368,6 +458,8 @@ def run(chk, replay):
             chk.nontrivial.add(key + (op["via"], bool(op["requestId"]), bool(op["step"])))
             for sig, what in monitor(op, st["code"], before, after, live):
                 chk.violation(sig, "%s on %s (%s): %s" % (an, op["dag"], state, what), dict(c, ops=c["ops"][:k + 1]))
+            for sig, what in view_monitor(after, live):
+                chk.violation(chk.prop + ":" + sig + (":after-refused-" + an if st["code"] >= 400 else ":after-" + an), "after %s on %s (%s, code %d): %s" % (an, op["dag"], state, st["code"], what), dict(c, ops=c["ops"][:k + 1]))
             if ok_case:
                 mcode = int(dl[base + pm].split()[1])
                 mnew = dl[base + pm].split("new=")[1]
@@ -389,6 +481,8 @@ def run(chk, replay):
     if dis == 0:
         chk.oblige("correspondence:api (response class + full world dump after every action, impl = model)", True)
     chk.stats = {"cases": len(cases), "action@state": dict(sorted(dist.items())), "codes": codes}
+    if not replay:
+        frozen_agent_stream(chk, binh)
     if not replay:
         import p_c08
         p_c08.liveness_stream(chk, "C20", 30 if chk.tier == "quick" else 300)
